@@ -245,7 +245,7 @@ Proof.
   - (* Tick *) simpl. destruct (0 <=? dt); [|exact HW]. apply (WInv_env w); auto; simpl; auto.
   - (* Notify *) apply (WInv_env w); auto; simpl; auto.
   - (* MuEnv *) simpl. destruct (match mspin w with Some _ => _ | None => true end); [|exact HW]. apply (WInv_env w); auto; simpl; auto.
-  - (* MuDeq *) simpl. destruct (mem_id r (muq w)) eqn:Hm; [|exact HW]. apply mem_id_In in Hm. destruct (Q3 r Hm) as (A & B).
+  - (* MuDeq *) simpl. destruct (mspin w) as [?|]; [exact HW|]. destruct (mem_id r (muq w)) eqn:Hm; [|exact HW]. apply mem_id_In in Hm. destruct (Q3 r Hm) as (A & B).
     apply (WInv_env w); auto; simpl; auto.
     + intros r0. unfold fupd. destruct (Nat.eqb_spec r0 r); [subst; right; left; simpl; discriminate | left; auto].
     + intros r0. unfold lc; simpl. unfold fupd. destruct (Nat.eqb_spec r0 r) as [->|Hne]; simpl.
@@ -501,7 +501,7 @@ Proof.
   - (* Tick *) simpl. destruct (0 <=? dt); [|exact HN]. apply (NInv_env w); auto.
   - (* Notify *) apply (NInv_env w); auto.
   - (* MuEnv *) simpl. destruct (match mspin w with Some _ => _ | None => true end); [|exact HN]. apply (NInv_env w); auto.
-  - (* MuDeq *) simpl. destruct (mem_id r (muq w)) eqn:Hm; [|exact HN]. apply mem_id_In in Hm. destruct (Q3 r Hm) as (_ & B).
+  - (* MuDeq *) simpl. destruct (mspin w) as [?|]; [exact HN|]. destruct (mem_id r (muq w)) eqn:Hm; [|exact HN]. apply mem_id_In in Hm. destruct (Q3 r Hm) as (_ & B).
     apply (NInv_env w); auto. intros r0 Hr0. simpl. apply fupd_other. congruence.
   - (* MuWakeSt *) simpl. destruct (mem_id r (mwake w)) eqn:Hm; [|exact HN]. apply mem_id_In in Hm. destruct (Q4 r Hm) as (_ & B).
     apply (NInv_env w); auto. intros r0 Hr0. simpl. apply fupd_other. congruence.
